@@ -49,7 +49,7 @@ EXPLANATION = (
     "profiles, a bound parameter) removes the name only for some stored values and does not count as the pairing clear — a stale or dangling name would survive the change of environment "
     "and be resolved in the new one; a Python test around the clear is seen by the path search itself. This covers the ConfigManager primitive level too: delete_environment's fall-back to the "
     "default environment is an env-change site (SQL write of the key), and the DELETE inside `set_settings_current_profile` (on which every call-level pairing relies) must itself be unconditional "
-    "(primitive-clear-unconditional). A WHERE clause the reader cannot split into such conjuncts (OR, non-literal key) is an analysis error. SQL texts (literals, or concatenations of literals, straight-line locals and module-level string constants) are read "
+    "(primitive-clear-unconditional). A WHERE clause the reader cannot split into such conjuncts (OR, non-literal key) is an analysis error. SQL texts (literals, or concatenations of literals, straight-line locals, module-level constants bound once — themselves possibly assembled from other constants — and class-level constants read through self / cls / the class) are read "
     "with a small statement reader (kind, table, quoted keys, WHERE conjuncts); private static helpers that are new with respect to the confirmed tree are folded into their callers first. "
     "R2: the stored name is resolved inside the asking environment: AuthService.get_current_profile passes `self.env.api_url`, "
     "ConfigManager.get_current_profile forwards it to get_profile, whose SELECT filters on both `name = ?` and `api_url = ?` bound to "
@@ -58,7 +58,7 @@ EXPLANATION = (
     "EnvService.current_auth_service (bound to get_current_environment()) or as local probes that never call a pointer-moving method and "
     "never escape; every caller of a pointer-moving AuthService method obtained its receiver from current_auth_service(). "
     "R4: `set_settings_current_environment(u)` is reached only after `u` was created or looked up successfully; delete_environment deletes "
-    "the environment's profiles and, on every path after deleting the row, tests whether it was current and resets to DEFAULT_ENVIRONMENT. "
+    "the environment's profiles and, on every path after deleting the row, tests whether it was current and resets to DEFAULT_ENVIRONMENT (the branch that holds the reset must imply `stored url == deleted url`: read through and / or / not / != on the false side / bool() and through a local that holds the test result; the stored url is recognised by data flow from the SELECT of the settings row, whatever the locals are called and wherever the SQL text is kept). "
     "R5 (who may write the stored name): inventory of every SQL statement of the package that writes the settings table with key `current_profile` "
     "(keys read through literals, concatenations and module constants; a settings write whose key cannot be read is an analysis error). "
     "Statements that only DELETE are clears and allowed anywhere. A statement that *stores* a name (INSERT/REPLACE/UPDATE) must be the one inside the primitive "
@@ -181,27 +181,94 @@ class Sql:
         return self.toks[: self.toks.index("where")].count("?")
 
 
-def _module_strs(node: ast.AST) -> dict[str, str]:
-    """Module-level names of the module that contains `node`, bound exactly once, to a string literal."""
+def _scope_root(node: ast.AST) -> ast.AST:
     root = node
     while parent(root) is not None:
         root = parent(root)
-    cache = root.__dict__.get("_c37_strs")
-    if cache is None:
-        seen: dict[str, list] = {}
-        for st in getattr(root, "body", []):
-            tg = st.targets if isinstance(st, ast.Assign) else [st.target] if isinstance(st, ast.AnnAssign) and st.value is not None else []
-            for t in tg:
+    return root
+
+
+def _scope_stores(body: list[ast.stmt]) -> dict[str, list[ast.AST | None]]:
+    """name -> the values it is bound to by the statements of one scope (module body / class body), nested blocks (if / try /
+    with / loops) included, function and class bodies excluded.  A binding whose value cannot be named (loop target, import,
+    augmented assignment, unpacking, def / class of that name) is recorded as None."""
+    seen: dict[str, list[ast.AST | None]] = {}
+    stack: list[ast.AST] = list(body)
+    while stack:
+        st = stack.pop()
+        if isinstance(st, FuncNode + (ast.ClassDef,)):
+            seen.setdefault(st.name, []).append(None)
+            continue
+        if isinstance(st, ast.Assign):
+            for t in st.targets:
                 if isinstance(t, ast.Name):
                     seen.setdefault(t.id, []).append(st.value)
-        cache = {k: v[0].value for k, v in seen.items() if len(v) == 1 and isinstance(v[0], ast.Constant) and isinstance(v[0].value, str)}
-        root.__dict__["_c37_strs"] = cache
+                else:
+                    for n in ast.walk(t):
+                        if isinstance(n, ast.Name) and isinstance(n.ctx, ast.Store):
+                            seen.setdefault(n.id, []).append(None)
+            continue
+        if isinstance(st, ast.AnnAssign) and isinstance(st.target, ast.Name):
+            if st.value is not None:
+                seen.setdefault(st.target.id, []).append(st.value)
+            continue
+        if isinstance(st, (ast.Import, ast.ImportFrom)):
+            for a in st.names:
+                seen.setdefault((a.asname or a.name).split(".")[0], []).append(None)
+            continue
+        for n in ast.iter_child_nodes(st):
+            if isinstance(n, ast.Name) and isinstance(n.ctx, (ast.Store, ast.Del)):
+                seen.setdefault(n.id, []).append(None)
+            elif isinstance(n, ast.AST):
+                stack.append(n)
+    return seen
+
+
+def _module_consts(node: ast.AST) -> dict[str, ast.AST]:
+    """Module-level names of the module that contains `node` that are bound exactly once (by a plain assignment at module
+    level, possibly annotated) and are never rebound from inside a function through a `global` declaration: name -> value
+    expression.  Whether the value is a string the reader can read off is const_text's business (a literal, implicit or
+    explicit concatenation, another constant)."""
+    root = _scope_root(node)
+    cache = root.__dict__.get("_c37_consts")
+    if cache is None:
+        rebound = {n for g in ast.walk(root) if isinstance(g, ast.Global) for n in g.names}
+        cache = {k: v[0] for k, v in _scope_stores(getattr(root, "body", [])).items() if len(v) == 1 and v[0] is not None and k not in rebound}
+        root.__dict__["_c37_consts"] = cache
     return cache
+
+
+def _class_const(e: ast.Attribute) -> ast.AST | None:
+    """`self.X` / `cls.X` / `K.X` where X is bound exactly once in the body of the class (the enclosing one for self / cls, the
+    module-level class K otherwise) and no statement of the module stores or deletes an attribute named X: the value expression."""
+    if not isinstance(e.value, ast.Name) or not isinstance(e.ctx, ast.Load):
+        return None
+    root = _scope_root(e)
+    if root is e:
+        return None
+    if e.value.id in ("self", "cls"):
+        k = enclosing_class(e)
+    else:
+        k = next((st for st in getattr(root, "body", []) if isinstance(st, ast.ClassDef) and st.name == e.value.id), None)
+    if k is None:
+        return None
+    vals = _scope_stores(k.body).get(e.attr)
+    if not vals or len(vals) != 1 or vals[0] is None:
+        return None
+    if any(isinstance(o, ast.ClassDef) and o is not k and e.attr in _scope_stores(o.body) for o in ast.walk(root)):
+        return None  # a subclass / sibling class of the module binds the same attribute: which one `self` sees is not read off
+    if any(isinstance(a, ast.Attribute) and a.attr == e.attr and isinstance(a.ctx, (ast.Store, ast.Del)) for a in ast.walk(root)):
+        return None
+    if any(isinstance(c, ast.Call) and isinstance(c.func, ast.Name) and c.func.id == "setattr" for c in ast.walk(root)):
+        return None
+    return vals[0]
 
 
 def const_text(e: ast.AST, depth: int = 6) -> str | None:
     """The string an expression always evaluates to: a literal, a concatenation / f-string of such, a local bound to
-    one by a straight-line assignment, or a module-level string constant.  None when that cannot be read off."""
+    one by a straight-line assignment, a module-level constant (bound once, never rebound through `global`; its value is
+    read the same way, so a constant may be assembled from other constants), or a class-level constant read as
+    `self.X` / `cls.X` / `K.X`.  None when that cannot be read off."""
     if depth <= 0:
         return None
     if isinstance(e, ast.Constant):
@@ -227,7 +294,11 @@ def const_text(e: ast.AST, depth: int = 6) -> str | None:
         if local:
             d = reaching_def(e.id, e)
             return const_text(d, depth - 1) if d is not None else None
-        return _module_strs(e).get(e.id)
+        v = _module_consts(e).get(e.id)
+        return const_text(v, depth - 1) if v is not None else None
+    if isinstance(e, ast.Attribute):
+        v = _class_const(e)
+        return const_text(v, depth - 1) if v is not None else None
     return None
 
 
@@ -545,6 +616,62 @@ def name_sources(e: ast.AST, fn: ast.AST, bound: set[str], seen: frozenset = fro
     raise AnchorError(f"C37.R5: unreadable source `{ast.unparse(e)}` of a name written to the profile pointer")
 
 
+# ------------------------------------------------------------------------------ R4 helpers
+def implied_equalities(test: ast.AST, at: ast.AST, positive: bool, depth: int = 6) -> list[tuple[ast.AST, ast.AST, ast.AST]]:
+    """(left, right, statement) of every comparison `left == right` that necessarily held when `test`, evaluated at statement
+    `at`, came out `positive`: operands of `and` on the true side, of `or` on the false side, `not`, `!=` on the false side,
+    `bool(x)`, and a local that holds the result of a test (`t = a and b == c` … `if t:`) followed to its straight-line
+    definition — the comparison is then reported together with the statement that evaluated it, where its operands have to be read."""
+    if depth <= 0:
+        return []
+    if isinstance(test, ast.BoolOp):
+        if isinstance(test.op, ast.And) == positive:
+            return [x for v in test.values for x in implied_equalities(v, at, positive, depth)]
+        return []
+    if isinstance(test, ast.UnaryOp) and isinstance(test.op, ast.Not):
+        return implied_equalities(test.operand, at, not positive, depth)
+    if isinstance(test, ast.Compare) and len(test.ops) == 1:
+        if isinstance(test.ops[0], ast.Eq if positive else ast.NotEq):
+            return [(test.left, test.comparators[0], at)]
+        return []
+    if isinstance(test, ast.NamedExpr):
+        return implied_equalities(test.value, at, positive, depth)
+    if isinstance(test, ast.Call) and isinstance(test.func, ast.Name) and test.func.id == "bool" and len(test.args) == 1 and not test.keywords:
+        return implied_equalities(test.args[0], at, positive, depth)
+    if isinstance(test, ast.Name) and isinstance(test.ctx, ast.Load):
+        d = reaching_def(test.id, at)
+        if d is not None and parent(d) is not None:
+            return implied_equalities(d, enclosing_stmt(d) or at, positive, depth - 1)
+    return []
+
+
+def is_name_of(e: ast.AST, at: ast.AST, name: str, depth: int = 3) -> bool:
+    """e is the variable `name`, possibly through straight-line local aliases."""
+    if dotted(e) == name:
+        return True
+    if isinstance(e, ast.Name) and depth > 0:
+        d = reaching_def(e.id, at)
+        return d is not None and parent(d) is not None and is_name_of(d, enclosing_stmt(d) or at, name, depth - 1)
+    return False
+
+
+def read_from_env_row(e: ast.AST, at: ast.AST, depth: int = 6) -> bool:
+    """The value of e (read at statement `at`) is taken from the SELECT of the settings row `current_environment_api_url`:
+    some call inside e, or inside the straight-line definition of a local e mentions, executes that statement."""
+    if depth <= 0:
+        return False
+    for n in ast.walk(e):
+        if isinstance(n, ast.Call):
+            s = sql_of(n)
+            if s is not None and s.kind == "select" and s.table == "settings" and ENV_KEY in s.quoted:
+                return True
+        elif isinstance(n, ast.Name) and isinstance(n.ctx, ast.Load):
+            d = reaching_def(n.id, at)
+            if d is not None and parent(d) is not None and read_from_env_row(d, enclosing_stmt(d) or at, depth - 1):
+                return True
+    return False
+
+
 # ------------------------------------------------------------------------------ the rules on a set of modules
 def eval_rules(mods: dict[str, tuple[object, ast.AST]], all_mods: list[tuple[object, ast.AST]]):
     """mods: role -> (module-like, tree) for 'config', 'env', 'auth'; all_mods: every module of the package.
@@ -794,14 +921,14 @@ def eval_rules(mods: dict[str, tuple[object, ast.AST]], all_mods: list[tuple[obj
         cmp_ok = False
         tests = []
         for t, lab in guards:
-            for x in ast.walk(t.ast.test):
-                if isinstance(x, ast.Compare) and len(x.ops) == 1 and isinstance(x.ops[0], ast.Eq) and lab == "T":
-                    sides = [x.left, x.comparators[0]]
-                    if any(dotted(s_) == dp[0] for s_ in sides):
-                        other = [s_ for s_ in sides if dotted(s_) != dp[0]][0]
-                        src = ast.unparse(expand(other, t.ast, depth=4))
-                        if ENV_KEY in src:
-                            cmp_ok = True
+            if lab not in ("T", "F") or not hasattr(t.ast, "test"):
+                continue
+            # what the branch taken at this test says: equalities that hold on it (through and / or / not / a local holding the test)
+            for left, right, at in implied_equalities(t.ast.test, t.ast, lab == "T"):
+                for me, other in ((left, right), (right, left)):
+                    if is_name_of(me, at, dp[0]) and not is_name_of(other, at, dp[0]) and read_from_env_row(other, at):
+                        cmp_ok = True
+                        if t not in tests:
                             tests.append(t)
         dn = cfg.node_of_containing(del_env)
         skipped = bool(tests) and any(cfg.exit in cfg.reach([n], blocked=tests, labels_excluded=NOEXC, include_starts=False) for n in dn)
@@ -1592,7 +1719,47 @@ def _global_slot(reset_in_delete: bool) -> list[tuple[str, str]]:
             (_CU, _CU + rs)] + ([(_DEL, rs + _DEL)] if reset_in_delete else [])
 
 
+# ---- SQL texts held in module / class constants; the was-current test held in a local
+_HEAD = "def _to_auth(row: Any) -> Auth:"
+_LIT_SET = '"INSERT OR REPLACE INTO settings (key, value) VALUES (\'current_environment_api_url\', ?)"'
+_LIT_GET = '"SELECT value FROM settings WHERE key = \'current_environment_api_url\'"'
+_ROWTEST = "            row = setting_cursor.fetchone()\n            if row and row[0] == api_url:\n"
+_K_SET = "_SET_ENV" + "_STATEMENT"
+_K_GET = "_GET_ENV" + "_STATEMENT"
+_K_KEY = "_ENV" + "_SETTING"
+_CONST_SET = (_HEAD, _K_SET + ' = (\n    "INSERT OR REPLACE INTO settings (key, value) "\n    "VALUES (\'current_environment_api_url\', ?)"\n)\n\n\n' + _HEAD)
+_CONST_NESTED = (_HEAD, _K_KEY + ' = "current_environment_api_url"\n' + _K_SET + ' = "INSERT OR REPLACE INTO settings (key, value) VALUES (\'" + ' + _K_KEY + ' + "\', ?)"\n'
+                 + _K_GET + ': str = "SELECT value FROM settings WHERE key = \'" + ' + _K_KEY + ' + "\'"\n\n\n' + _HEAD)
+_CLS_HEAD = '    """Manages profiles and configuration using SQLite"""\n'
+_CONST_CLASS = (_CLS_HEAD, _CLS_HEAD + "\n    " + _K_SET + ' = "INSERT OR REPLACE INTO settings (key, value) " "VALUES (\'current_environment_api_url\', ?)"\n')
+_GETENV_DEF = "    def get_environment(self, api_url: str) -> Environment | None:"
+
+
+def _was_current(expr: str, test: str = "was_current") -> tuple[str, str]:
+    return (_ROWTEST, "            current_row = setting_cursor.fetchone()\n            was_current = " + expr + "\n            if " + test + ":\n")
+
+
+def _extra_writer(stmt: str) -> tuple[str, str]:
+    return (_GETENV_DEF, "    def reset_environment(self) -> None:\n        with sqlite3.connect(self.db_path) as conn:\n            conn.execute(" + stmt + ", (DEFAULT_ENVIRONMENT.api_url,))\n            conn.commit()\n\n" + _GETENV_DEF)
+
+
+
 TWINS: list[Twin] = [
+    # ---- SQL texts in constants (module level, assembled from other constants, class level); a test result held in a local
+    Twin("benign: settings upsert in a module constant shared by the primitive and the fall-back; was-current test through a local", _C, *_multi(_C, [
+        _CONST_SET, (_LIT_SET, _K_SET), (_LIT_SET, _K_SET), _was_current("bool(current_row) and current_row[0] == api_url")]), None),
+    Twin("benign: upsert and SELECT assembled from a key constant; was-current test negated through a local", _C, *_multi(_C, [
+        _CONST_NESTED, (_LIT_SET, _K_SET), (_LIT_SET, _K_SET), (_LIT_GET, _K_GET), (_LIT_GET, _K_GET),
+        _was_current("not current_row or current_row[0] != api_url", "not was_current")]), None),
+    Twin("benign: upsert in a class constant read through self", _C, *_multi(_C, [_CONST_CLASS, (_LIT_SET, "self." + _K_SET), (_LIT_SET, "self." + _K_SET)]), None),
+    Twin("local holds the inverted was-current test", _C, *_multi(_C, [_was_current("bool(current_row) and current_row[0] != api_url")]), "C37.R4"),
+    Twin("local holds a was-current test under the wrong polarity", _C, *_multi(_C, [_was_current("bool(current_row) and current_row[0] == api_url", "not was_current")]), "C37.R4"),
+    Twin("local compares the stored url with the default instead of the deleted one", _C, *_multi(_C, [_was_current("bool(current_row) and current_row[0] == DEFAULT_ENVIRONMENT.api_url")]), "C37.R4"),
+    Twin("was-current test reads the other settings key through a constant", _C, *_multi(_C, [
+        (_HEAD, _K_GET + ' = "SELECT value FROM settings WHERE key = \'current_profile\'"\n\n\n' + _HEAD),
+        ('            setting_cursor = conn.execute(\n                ' + _LIT_GET + '\n            )\n            row = setting_cursor.fetchone()', '            setting_cursor = conn.execute(' + _K_GET + ')\n            row = setting_cursor.fetchone()')]), "C37.R4"),
+    Twin("extra environment writer through a constant assembled from a key constant, no clear", _C, *_multi(_C, [_CONST_NESTED, (_LIT_SET, _K_SET), (_LIT_SET, _K_SET), _extra_writer(_K_SET)]), "C37.R1"),
+    Twin("extra environment writer through a class constant, no clear", _C, *_multi(_C, [_CONST_CLASS, (_LIT_SET, "self." + _K_SET), (_LIT_SET, "self." + _K_SET), _extra_writer("self." + _K_SET)]), "C37.R1"),
     # ---- R6 breaking: a value computed from the current environment survives a change of it
     Twin("current_auth_service() keeps its service; delete_environment (which falls back to the default through its callee) forgets it (the seed's form)", _E, *_kept_service(), "C37.R6"),
     Twin("get_current_environment() keeps the Environment; reset on switch/create, not on delete", _E, *_multi(_E, _KEPT_ENV), "C37.R6"),
